@@ -149,6 +149,7 @@ func (s *State) heldList() []string { return sortedStrs(s.Held) }
 // ---------------------------------------------------------------------------
 
 type LoopSpec struct {
+	NoExit    bool     // the loop must run all its iterations: no return / panic / break from its body
 	Invariant []string // contract expressions
 	IterEmits []string // event patterns emitted by one iteration (nil = not constrained)
 	Name      string
@@ -735,6 +736,9 @@ func (x *Exec) earlyExit(st *State, b *ssa.BasicBlock, how string, pos token.Pos
 	for _, h := range st.InLoop {
 		if h < len(fn.Blocks) && naturalLoop(fn.Blocks[h])[b.Index] {
 			ord := x.loopOrdinals(fn)[h]
+			if ls := x.H.Loop(fn, ord); ls == nil || !ls.NoExit {
+				continue
+			}
 			x.obl(st, fmt.Sprintf("loop#%d/no-early-exit", ord), "false", "the loop body leaves the function by "+how+" before all iterations ran", pos)
 		}
 	}
@@ -757,7 +761,7 @@ func (x *Exec) leaveLoops(st *State, from, to *ssa.BasicBlock) {
 		}
 		nl := naturalLoop(fn.Blocks[h])
 		if nl[from.Index] && !nl[to.Index] {
-			if from.Index != h {
+			if ls := x.H.Loop(fn, x.loopOrdinals(fn)[h]); from.Index != h && ls != nil && ls.NoExit {
 				ord := x.loopOrdinals(fn)[h]
 				x.obl(st, fmt.Sprintf("loop#%d/no-early-exit", ord), "false", "the loop is left by a break before all iterations ran", from.Instrs[len(from.Instrs)-1].Pos())
 			}
@@ -1206,13 +1210,13 @@ func (x *Exec) goStmt(st *State, ins *ssa.Go) {
 	for _, a := range c.Args {
 		args = append(args, x.val(st, a))
 	}
-	name := "go:?"
+	name := "spawn:?"
 	if c.StaticCallee() != nil {
-		name = "go:" + c.StaticCallee().Name()
+		name = "spawn:" + c.StaticCallee().Name()
 	} else if !c.IsInvoke() {
 		fv := x.val(st, c.Value)
 		if fv.K == KClosure {
-			name = "go:" + funcKey(fv.Fn)
+			name = "spawn:" + funcKey(fv.Fn)
 		}
 	}
 	x.event(st, Event{Name: name, Args: args, Pos: ins.Pos()})
